@@ -35,8 +35,8 @@ def sh(cmd, cwd=None, timeout=1500, env=None):
         return 124, (ex.stdout or b"").decode() if isinstance(ex.stdout, bytes) else (ex.stdout or "")
 
 
-def suite(cwd, timeout=900):
-    rc, out = sh("cargo test --workspace --no-fail-fast --offline 2>&1", cwd=cwd, timeout=timeout)
+def suite(cwd, timeout=900, cmd=None):
+    rc, out = sh((cmd or "cargo test --workspace --no-fail-fast --offline") + " 2>&1", cwd=cwd, timeout=timeout)
     passed = sum(int(x) for x in re.findall(r"test result: \w+\. (\d+) passed", out))
     failed = re.findall(r"^test (\S+) \.\.\. FAILED", out, re.M)
     compile_err = "error: could not compile" in out or "error[E" in out
@@ -88,16 +88,19 @@ def main():
         if rc != 0:
             print("demo does not apply:", out[-500:])
             return 2
-        s2 = suite(WT, timeout=600)
+        dcmd = os.environ.get("SEED_DEMO_CMD")
+        if dcmd:
+            res["demo_cmd"] = dcmd
+        s2 = suite(WT, timeout=600, cmd=dcmd)
         res["demo_with_patch"] = {k: s2[k] for k in ("passed", "failed", "compile_error", "timeout")}
         ok2 = (bool(s2["failed"]) or s2["timeout"]) and not s2["compile_error"]
         rc, out = sh("git apply -R --whitespace=nowarn %s" % patch, cwd=WT)
         if rc != 0:
             print("cannot revert patch:", out[-300:])
             return 2
-        s3 = suite(WT, timeout=600)
+        s3 = suite(WT, timeout=600, cmd=dcmd)
         res["demo_without_patch"] = {k: s3[k] for k in ("passed", "failed", "compile_error", "timeout")}
-        ok3 = not s3["failed"] and not s3["compile_error"] and not s3["timeout"] and s3["passed"] > 105 - 1
+        ok3 = not s3["failed"] and not s3["compile_error"] and not s3["timeout"] and s3["passed"] > (0 if dcmd else 105 - 1)
         res["confirmed"] = bool(ok1 and ok2 and ok3)
         print(json.dumps(res, indent=1))
         if not res["confirmed"]:
